@@ -21,6 +21,17 @@ legs
   tt2-path    the Type 2 Tag exchange path of every PN53x-family driver and
               of rcs380 under a real ContactlessFrontend: payload for a good
               CRC_A, TransmissionError for a bad one, 1-2 byte answers passed
+  resend      histories of 2-4 exchanges on one driver + chip + tag in which
+              the same command object is sent again and again (directly, by
+              the retry loop of Type1Tag.transceive, through the Type1Tag
+              block commands) while answers are lost or damaged: every
+              transmission on the RF side of the chip is command +
+              CRC_B(command) (Type 1 Tag READ8 / WRITE8 / RSEG through CIU
+              registers on pn532 / pn533 / arygonB) resp. the unchanged
+              command (Type 2 Tag, all drivers), bad CRCs are never accepted
+
+The CRC legs also require that calculate_crc / add_crc_* / check_crc_* leave
+the caller's buffer as it was (bytearray, bytes and list arguments).
 """
 import errno
 import hashlib
@@ -694,8 +705,10 @@ LIB = nfc.clf.device.Device
 lib_calc = nfc.clf.device.calculate_crc
 
 
-def _crc_one(kind, m, flips, bursts=()):
-    """all CRC statements for message m; returns evaluations"""
+def _crc_one(kind, m, flips, bursts=(), reuse=True):
+    """all CRC statements for message m; returns evaluations.  reuse=False
+    leaves out the repeated calls on one buffer (bulk enumeration of the
+    3-byte messages)"""
     if kind == "A":
         add, check, init = LIB.add_crc_a, LIB.check_crc_a, ref_crc.INIT_A
         r_add, r_check = ref_crc.add_a, ref_crc.check_a
@@ -703,19 +716,56 @@ def _crc_one(kind, m, flips, bursts=()):
         add, check, init = LIB.add_crc_b, LIB.check_crc_b, ref_crc.INIT_B
         r_add, r_check = ref_crc.add_b, ref_crc.check_b
     want_reg = ref_crc.crc16(m, init)
-    got_reg = lib_calc(bytearray(m), len(m), init)
+    buf = bytearray(m)
+    got_reg = lib_calc(buf, len(m), init)
     if got_reg != want_reg:
         raise Violation("calculate-crc-differs", "CRC_%s register for %s: "
                         "%#06x, reference %#06x" % (kind, m.hex()[:80],
                                                     got_reg, want_reg))
-    framed = bytes(add(bytearray(m)))
+    # the caller keeps its buffer: the drivers hand the command buffer of
+    # their caller to add_crc_* (pn53x.send_cmd_recv_rsp does not copy a
+    # bytearray) and callers send the same object again (Type1Tag.transceive
+    # retries), so "return data extended with the CRC" must not extend the
+    # argument itself.  The expectation is computed from m, not from buf.
+    if bytes(buf) != m:
+        raise Violation("calculate-crc-modifies-argument", "calculate_crc "
+                        "left %s in the caller's bytearray %s"
+                        % (bytes(buf).hex()[:80], m.hex()[:80]))
+    framed = bytes(add(buf))
     if framed != r_add(m):
         raise Violation("add-crc-differs", "add_crc_%s(%s) = ..%s, reference "
                         "..%s" % (kind.lower(), m.hex()[:80],
                                   framed[-2:].hex(), r_add(m)[-2:].hex()))
-    if check(bytearray(framed)) is not True:
+    if bytes(buf) != m:
+        raise Violation("add-crc-modifies-argument", "add_crc_%s(x) with x = "
+                        "bytearray %s left x = %s (a second transmission of "
+                        "the same buffer is no longer message + CRC)"
+                        % (kind.lower(), m.hex()[:80], bytes(buf).hex()[:84]))
+    again = bytes(add(buf)) if reuse else r_add(m)
+    if again != r_add(m):
+        raise Violation("add-crc-differs-on-reuse", "second add_crc_%s on "
+                        "the same bytearray %s gave %s, reference %s"
+                        % (kind.lower(), m.hex()[:80], again.hex()[:84],
+                           r_add(m).hex()[:84]))
+    if reuse and bytes(add(bytes(m))) != r_add(m):
+        raise Violation("add-crc-differs", "add_crc_%s(bytes %s) = %s"
+                        % (kind.lower(), m.hex()[:80],
+                           bytes(add(bytes(m))).hex()[:84]))
+    chk = bytearray(framed)
+    if check(chk) is not True:
         raise Violation("check-rejects-own-crc", "check_crc_%s(add(%s))"
                         % (kind.lower(), m.hex()[:80]))
+    if bytes(chk) != framed:
+        raise Violation("check-crc-modifies-argument", "check_crc_%s(x) with "
+                        "x = bytearray %s left x = %s"
+                        % (kind.lower(), framed.hex()[:84],
+                           bytes(chk).hex()[:84]))
+    # the forms the drivers pass: bytes-like and (pn532/pn533 FIFO decoding)
+    # a list of integers
+    if reuse and (check(framed) is not True
+                  or check(list(framed)) is not True):
+        raise Violation("check-rejects-own-crc", "check_crc_%s(add(%s)) as "
+                        "bytes / list" % (kind.lower(), m.hex()[:80]))
     n = 1
     for bit in flips:
         x = bytearray(framed)
@@ -797,8 +847,10 @@ def bulk_crc_short(tier, seed, i, n, acct):
                     else ()
             else:
                 flips = allflips if (idx // n) % 61 == 0 else ()
+            reuse = ln < 3 or (idx // n) % 61 == 0
             try:
-                k = _crc_one("A", m, flips) + _crc_one("B", m, flips)
+                k = _crc_one("A", m, flips, reuse=reuse) + \
+                    _crc_one("B", m, flips, reuse=reuse)
             except Violation as v:
                 v.case = {"msg": m}
                 raise
@@ -914,6 +966,382 @@ def run_tt2(case, ctx):
     ctx.nontrivial()
 
 
+# =============================================================== leg resend
+# Histories of exchanges on ONE driver + chip + tag with a small pool of
+# command objects: the same object is handed to the driver again and again
+# (directly, or by the retry loop of Type1Tag.transceive), answers get lost or
+# corrupted in between.  Judged on the RF side of the simulated chip.
+CIU_DRIVERS = ("pn532", "pn533", "arygonB")
+T1_OPCODE = {"READ8": 0x02, "WRITE-E8": 0x54, "WRITE-NE8": 0x1B, "RSEG": 0x10}
+TT2_CMDS = [b"\x30\x04", b"\xa2\x04\x01\x02\x03\x04", b"\x30\x00",
+            b"\xc2\xff", b"\x3a\x00\x0f"]
+
+
+def rf_fault(fifo, fault):
+    """what is in the CIU FIFO after the receive, given the fault"""
+    if fault is None:
+        return fifo
+    kind = fault[0]
+    if kind == "lost":
+        return b""
+    if kind == "noise":
+        return bytes(fault[1])
+    if not fifo:
+        return fifo
+    if kind == "flip":
+        f = bytearray(fifo)
+        bit = fault[1] % (8 * len(f))
+        f[bit // 8] ^= 1 << (bit % 8)
+        return bytes(f)
+    if kind == "trunc":
+        return fifo[:fault[1] % len(fifo)]
+    if kind == "extend":
+        return fifo + bytes(fault[1])
+    raise HarnessError("unknown rf fault %r" % (fault,))
+
+
+def ciu_decode(fifo):
+    """independent reading of a FIFO filled by a CIU that received with the
+    parity check disabled: the bit stream LSB first, every complete group of
+    9 bits is 8 data bits (LSB first) + parity.  -> payload (CRC_B removed)
+    or None when there is no frame with a correct CRC_B"""
+    bits = []
+    for b in bytes(fifo):
+        bits += [(b >> i) & 1 for i in range(8)]
+    octets = bytes(sum(bits[i + j] << j for j in range(8))
+                   for i in range(0, len(bits) - 8, 9))
+    if len(octets) < 3 or not ref_crc.check_b(octets):
+        return None
+    return octets[:-2]
+
+
+class DynT1T(object):
+    """Type 1 Tag with dynamic memory (Topaz 512: HR0 12h, 64 blocks of 8
+    bytes) behind the CIU.  Like a real tag it stays mute unless the frame
+    is exactly 14 command bytes + CRC_B (reference CRC) with its UID."""
+
+    def __init__(self, uid, mseed, faults):
+        self.uid = bytes(uid)
+        self.mem = bytearray(det_bytes(512, "t1t-mem", mseed))
+        self.faults = faults
+        self.log = []
+
+    def react(self, frame):
+        if len(frame) != 16 or not ref_crc.check_b(frame):
+            return None
+        op, blk, data, uid = frame[0], frame[1], frame[2:10], frame[10:14]
+        if uid != self.uid or blk >= 64:
+            return None
+        if op == 0x02:
+            pass
+        elif op == 0x54:
+            self.mem[8 * blk:8 * blk + 8] = data
+        elif op == 0x1B:
+            for i in range(8):
+                self.mem[8 * blk + i] |= data[i]
+        else:
+            return None
+        return ref_crc.add_b(bytes([blk]) + bytes(self.mem[8 * blk:8 * blk + 8]))
+
+    def on_air(self, frame):
+        n = len(self.log)
+        answer = self.react(frame)
+        clean = simchip.parity_fifo(answer) if answer is not None else b""
+        fault = self.faults.get(n)
+        fifo = rf_fault(clean, fault)
+        payload = ciu_decode(fifo)
+        if answer is not None and fifo == clean:
+            verdict = "good"        # must be accepted with this payload
+        elif payload is None:
+            verdict = "bad"         # must not be accepted
+        else:
+            verdict = "either"      # damaged outside the protected bits
+        self.log.append({"frame": frame, "fault": fault, "verdict": verdict,
+                         "payload": payload})
+        return fifo
+
+
+def t1_raw(cmd, uid):
+    op = cmd["op"]
+    if op == "RSEG":
+        return bytes([0x10, (cmd["block"] % 4) << 4]) + bytes(8) + uid
+    if op == "READ8":
+        return bytes([0x02, cmd["block"] % 64]) + bytes(8) + uid
+    return bytes([T1_OPCODE[op], cmd["block"] % 64]) + bytes(cmd["data"]) + uid
+
+
+def t1_frames(raw):
+    """the frames one fault-free execution of the command puts on the air:
+    command + CRC_B(command); RSEG is executed by the PN532/PN533 drivers as
+    16 READ8 commands (their documented workaround)"""
+    if raw[0] != 0x10:
+        return [ref_crc.add_b(raw)]
+    first = (raw[1] >> 4) * 16
+    return [ref_crc.add_b(bytes([0x02, b]) + raw[2:])
+            for b in range(first, first + 16)]
+
+
+def _call(fn):
+    try:
+        return "data", fn()
+    except nfc.clf.CommunicationError as e:
+        return "comm", e
+    except nfc.tag.TagCommandError as e:
+        return "tagerr", e
+
+
+def check_objs_unchanged(drv, objs, raws):
+    """after the history (the RF-side oracle comes first): callers such as
+    Type1Tag.transceive send the object they hold again, so it must still be
+    the command"""
+    for obj, raw in zip(objs, raws):
+        if bytes(obj) != raw:
+            raise Violation("exchange-modifies-command", "%s: the caller's "
+                            "command buffer %s is now %s"
+                            % (drv, raw.hex(), bytes(obj).hex()))
+
+
+def run_resend(case, ctx):
+    if case["path"] == "tt2":
+        return run_resend_tt2(case, ctx)
+    import nfc.tag.tt1
+    drv = case["driver"]
+    uid = bytes(case["uid"])
+    ctx.set_class("pn53x/resend/ciu")
+    ctx.label("driver:" + drv)
+    faults = {}
+    for at, f in case["faults"]:
+        faults.setdefault(int(at), f)
+    tag = DynT1T(uid, case["mseed"], faults)
+    dev, link = simchip.build(drv)
+    simchip.record_ciu(link.chip, tag.on_air)
+    clf = simchip.frontend(dev)
+    target = nfc.clf.RemoteTarget(
+        "106A", sens_res=bytearray(b"\x00\x0c"),
+        rid_res=bytearray(b"\x12\x4c" + uid))
+    clf.target = target
+    t1t = nfc.tag.tt1.Type1Tag(clf, target)
+    link.arm()
+    raws = [t1_raw(c, uid) for c in case["cmds"]]
+    objs = [bytearray(r) if c["as"] == "bytearray" else bytes(r)
+            for r, c in zip(raws, case["cmds"])]
+    sent_per_obj = [0] * len(objs)
+    resent = False
+    for k, step in enumerate(case["steps"]):
+        ci = step["cmd"] % len(objs)
+        cmd, raw, obj, via = case["cmds"][ci], raws[ci], objs[ci], step["via"]
+        want = t1_frames(raw)
+        n0 = len(tag.log)
+        what = "%s step %d: %s %s (%s) via %s" % (drv, k, cmd["op"],
+                                                 raw.hex(), cmd["as"], via)
+        ctx.label("op:" + cmd["op"], "via:" + via)
+        try:
+            if via == "exchange":
+                tagged, val = _call(lambda: clf.exchange(obj, 0.1))
+            elif via == "transceive":
+                tagged, val = _call(lambda: t1t.transceive(obj))
+            elif cmd["op"] == "READ8":
+                tagged, val = _call(lambda: t1t.read_block(raw[1]))
+            elif cmd["op"] == "RSEG":
+                tagged, val = _call(lambda: t1t.read_segment(raw[1] >> 4))
+            else:
+                tagged, val = _call(lambda: t1t.write_block(
+                    raw[1], bytearray(raw[2:10]), cmd["op"] == "WRITE-E8"))
+        except Exception as e:
+            raise unexpected(e, detail=what)
+        entries = tag.log[n0:]
+        if not entries:
+            raise HarnessError("%s: nothing was sent through the CIU" % what)
+        # --- every transmission is command + CRC_B(command)
+        attempts = []
+        for e in entries:
+            # a new execution of the command starts after a complete one
+            # and after one that ended in a damaged / missing answer
+            if not attempts or len(attempts[-1]) == len(want) or \
+                    (attempts[-1][-1]["verdict"] != "good"
+                     and e["frame"] == want[0]):
+                attempts.append([])
+            j = len(attempts[-1])
+            if e["frame"] != want[j]:
+                raise Violation(
+                    "rf-frame-not-command-plus-crc", "%s: transmission %d "
+                    "(%d of this step, %d of this command object) on the air "
+                    "is %s, command + CRC_B(command) is %s"
+                    % (what, n0 + sum(map(len, attempts)) + 1,
+                       sum(map(len, attempts)) + 1, sent_per_obj[ci] + 1,
+                       e["frame"].hex(), want[j].hex()))
+            attempts[-1].append(e)
+            if via != "tag":
+                sent_per_obj[ci] += 1
+        # --- nothing with a wrong CRC_B was accepted, good answers were
+        for a in attempts:
+            for e in a[:-1]:
+                if e["verdict"] == "bad":
+                    raise Violation("ciu-accepts-bad-crc", "%s: continued "
+                                    "after answer with fault %r"
+                                    % (what, e["fault"]))
+        last = attempts[-1]
+        if tagged == "data":
+            if len(last) != len(want) or last[-1]["verdict"] == "bad":
+                raise Violation("ciu-accepts-bad-crc", "%s returned %r after "
+                                "%d of %d transmissions, last fault %r"
+                                % (what, val, len(last), len(want),
+                                   last[-1]["fault"]))
+            if raw[0] == 0x10:
+                full = raw[1:2] + b"".join(e["payload"][1:9] for e in last)
+            else:
+                full = last[-1]["payload"]
+            if via in ("exchange", "transceive"):
+                expect = full
+            elif cmd["op"] == "READ8":
+                expect = full[1:9]
+            elif cmd["op"] == "RSEG":
+                expect = full[1:129]
+            else:
+                expect = None
+            got = None if val is None else bytes(val)
+            if got != expect:
+                raise Violation("ciu-payload-differs", "%s returned %s, the "
+                                "tag sent %s" % (what, got and got.hex(),
+                                                 expect and expect.hex()))
+            ctx.label("accepted")
+        else:
+            if tagged == "tagerr" and via == "exchange":
+                raise HarnessError("TagCommandError from exchange()")
+            if last[-1]["verdict"] == "good" and len(last) == len(want):
+                raise Violation("ciu-rejects-good-crc", "%s raised %r although "
+                                "the last answer was intact" % (what, val))
+            ctx.label("rejected")
+        if len(attempts) > 1:
+            ctx.label("retried-by-tag-layer")
+            resent = True
+    check_objs_unchanged(drv, objs, raws)
+    if resent or max(sent_per_obj) >= 2:
+        ctx.nontrivial()
+    ctx.note({"transmissions": len(tag.log),
+              "per_object": sent_per_obj})
+
+
+def run_resend_tt2(case, ctx):
+    drv = case["driver"]
+    ctx.set_class("%s/resend/tt2" % ("rcs380" if drv == "rcs380" else "pn53x"))
+    ctx.label("driver:" + drv)
+    dev, link = simchip.build(drv)
+    chip = link.chip
+    answers = []
+    chip.rf = lambda code, arg: (0, answers[-1])
+    clf = simchip.frontend(dev)
+    clf.target = nfc.clf.RemoteTarget(
+        "106A", sens_res=bytearray(b"\x44\x00"), sel_res=bytearray(b"\x00"),
+        sdd_res=bytearray(b"\x04\x01\x02\x03\x04\x05\x06"))
+    link.arm()
+    raws = [bytes(c["raw"]) for c in case["cmds"]]
+    objs = [bytearray(r) if c["as"] == "bytearray" else bytes(r)
+            for r, c in zip(raws, case["cmds"])]
+    uses = [0] * len(objs)
+    pre = 2 if drv == "rcs380" else 0      # InCommRF: 16 bit timeout first
+    for k, step in enumerate(case["steps"]):
+        ci = step["cmd"] % len(objs)
+        raw, obj, rf_answer = raws[ci], objs[ci], bytes(step["rf"])
+        answers.append(rf_answer)
+        uses[ci] += 1
+        what = "%s step %d: %s (%s, use %d), tag answer %s" % (
+            drv, k, raw.hex(), case["cmds"][ci]["as"], uses[ci],
+            rf_answer.hex())
+        if len(rf_answer) <= 2:
+            want = rf_answer
+        elif ref_crc.check_a(rf_answer):
+            want = rf_answer[:-2]
+        else:
+            want = None
+        n0 = len(chip.rf_calls)
+        try:
+            got = clf.exchange(obj, 0.1)
+        except nfc.clf.TransmissionError:
+            if want is not None:
+                raise Violation("tt2-rejects-good-crc", what)
+            got = None
+            ctx.label("rejected")
+        except Exception as e:
+            raise unexpected(e, detail=what)
+        else:
+            if want is None:
+                raise Violation("tt2-accepts-bad-crc", "%s returned %r"
+                                % (what, got))
+            if got is None or bytes(got) != want:
+                raise Violation("tt2-payload-differs", "%s returned %r, want "
+                                "%s" % (what, got, want.hex()))
+            ctx.label("accepted")
+        sent = [a for c, a in chip.rf_calls[n0:]]
+        if len(sent) != 1 or sent[0][pre:] != raw:
+            raise Violation("rf-command-differs", "%s: the chip was asked to "
+                            "send %r" % (what, [s.hex() for s in sent]))
+    check_objs_unchanged(drv, objs, raws)
+    if max(uses) >= 2:
+        ctx.nontrivial()
+
+
+_rf_fault = st.one_of(
+    st.just(["lost"]), st.just(["lost"]),
+    st.integers(0, 127).map(lambda b: ["flip", b]),
+    st.integers(0, 13).map(lambda k: ["trunc", k]),
+    st.binary(min_size=1, max_size=2).map(lambda b: ["extend", b]),
+    st.binary(min_size=1, max_size=14).map(lambda b: ["noise", b]))
+
+
+@st.composite
+def _tt2_answer(draw):
+    kind = draw(st.sampled_from(["good", "good", "flip", "short", "swapped",
+                                 "crc_b", "random"]))
+    n = draw(st.integers(1, 18))
+    payload = draw(st.binary(min_size=n, max_size=n))
+    if kind == "good":
+        return ref_crc.add_a(payload)
+    if kind == "flip":
+        x = bytearray(ref_crc.add_a(payload))
+        b = draw(st.integers(0, 8 * len(x) - 1))
+        x[b // 8] ^= 1 << (b % 8)
+        return bytes(x)
+    if kind == "short":
+        return draw(st.binary(min_size=1, max_size=2))
+    if kind == "swapped":
+        return payload + ref_crc.crc_a(payload)[::-1]
+    if kind == "crc_b":
+        return ref_crc.add_b(payload)
+    return draw(st.binary(min_size=3, max_size=20))
+
+
+@st.composite
+def gen_resend(draw):
+    kinds = st.sampled_from(["bytearray", "bytearray", "bytes"])
+    if draw(st.integers(0, 3)) == 0:
+        ncmd = draw(st.integers(1, 2))
+        cmds = [{"raw": draw(st.sampled_from(TT2_CMDS)), "as": draw(kinds)}
+                for _ in range(ncmd)]
+        steps = draw(st.lists(st.fixed_dictionaries({
+            "cmd": st.integers(0, ncmd - 1), "rf": _tt2_answer()}),
+            min_size=2, max_size=4))
+        return {"path": "tt2", "driver": draw(st.sampled_from(TT2_DRIVERS)),
+                "cmds": cmds, "steps": steps}
+    ncmd = draw(st.integers(1, 2))
+    cmds = [{"op": draw(st.sampled_from(["READ8", "READ8", "WRITE-E8",
+                                         "WRITE-NE8", "RSEG"])),
+             "block": draw(st.integers(0, 63)),
+             "data": draw(st.binary(min_size=8, max_size=8)),
+             "as": draw(kinds)} for _ in range(ncmd)]
+    steps = draw(st.lists(st.fixed_dictionaries({
+        "cmd": st.integers(0, ncmd - 1),
+        "via": st.sampled_from(["exchange", "exchange", "transceive",
+                                "tag"])}), min_size=2, max_size=4))
+    faults = draw(st.lists(st.tuples(
+        st.one_of(st.integers(0, 4), st.integers(0, 40)), _rf_fault),
+        max_size=4))
+    return {"path": "ciu", "driver": draw(st.sampled_from(CIU_DRIVERS)),
+            "uid": draw(st.binary(min_size=4, max_size=4)),
+            "mseed": draw(st.integers(0, 999)),
+            "cmds": cmds, "steps": steps, "faults": faults}
+
+
 LEGS = [
     Leg("anchors", run=run_anchor, enum=enum_anchors, exhaustive=True,
         rule="literal frames of tests/base_clf_pn53x.py, test_clf_acr122.py, "
@@ -952,14 +1380,18 @@ LEGS = [
              "ref_crc for every message, plus every single bit flip of "
              "add(m) for all messages <= 1 byte, every 4th (quick) / every "
              "(thorough) 2-byte message and every 61st 3-byte message; "
-             "evaluations count check calls; non-trivial = message length "
-             ">= 1."),
+             "evaluations count check calls; for every message also: the "
+             "bytearray handed to calculate_crc / add_crc_* / check_crc_* is "
+             "unchanged afterwards; for every message <= 2 bytes and every "
+             "61st 3-byte message a second add_crc_* on the same bytearray "
+             "gives the same frame and bytes / list arguments give the same "
+             "results; non-trivial = message length >= 1."),
     Leg("crc-random", run=run_crc_msg, gen=gen_crc_random, quick=2000,
         thorough=30000, shards_quick=8, shards_thorough=16, nt_floor=0.5,
         rule="random and constant-byte messages of 0..300 bytes with up to "
              "12 single bit flips and 4 bursts (1-5 bytes) of the protected "
-             "frame: check_crc_* agrees with the reference; non-trivial = "
-             "length >= 1."),
+             "frame: check_crc_* agrees with the reference, arguments are "
+             "left unchanged (as in crc-short); non-trivial = length >= 1."),
     Leg("tt2-path", run=run_tt2, gen=lambda tier: gen_tt2(), quick=3000,
         thorough=40000, shards_quick=8, shards_thorough=16, nt_floor=0.5,
         rule="ContactlessFrontend.exchange() with a Type 2 Tag target over "
@@ -968,4 +1400,26 @@ LEGS = [
              "burst, byte-swapped CRC, CRC_B instead of CRC_A, 1-2 byte "
              "ACK/NAK, random; non-trivial = the exchange reached the "
              "driver's CRC decision."),
+    Leg("resend", run=run_resend, gen=lambda tier: gen_resend(), quick=2400,
+        thorough=40000, shards_quick=8, shards_thorough=16, nt_floor=0.5,
+        rule="histories of 2-4 exchanges on one driver + simulated chip + "
+             "tag with a pool of 1-2 command objects (bytearray or bytes) "
+             "that are handed to the driver again and again. 3 of 4 cases: "
+             "pn532/pn533/arygonB with a dynamic-memory Type 1 Tag whose "
+             "READ8 / WRITE-E8 / WRITE-NE8 / RSEG commands the driver sends "
+             "through CIU registers with a host-computed CRC_B, each step "
+             "through ContactlessFrontend.exchange(), through the retry loop "
+             "of Type1Tag.transceive() with the same object, or through "
+             "Type1Tag.read_block/write_block/read_segment; up to 4 answers "
+             "(by transmission index) are lost, bit-flipped, truncated, "
+             "extended or replaced by noise. Oracle on the RF side of the "
+             "chip: every transmission is command + CRC_B(command) by the "
+             "reference (the simulated tag is mute otherwise), the command "
+             "object is unchanged, an answer whose CRC_B fails under the "
+             "reference is never accepted, an intact one is returned. 1 of "
+             "4 cases: Type 2 Tag commands over all 8 drivers with good / "
+             "damaged CRC_A answers per step (tt2-path oracle per step, the "
+             "command reaches InCommunicateThru / InCommRF unchanged every "
+             "time). Non-trivial = some command object was transmitted at "
+             "least twice."),
 ]
